@@ -33,6 +33,13 @@ const (
 	O_CREATE    = os.O_CREATE
 	O_TRUNC     = os.O_TRUNC
 	ModeSymlink = os.ModeSymlink
+	// the remaining open flags: not used by pkg/fs today, present so that an edit of an open call still builds
+	// (the flags are recorded with every open and honoured by the model file system)
+	O_RDONLY = os.O_RDONLY
+	O_WRONLY = os.O_WRONLY
+	O_APPEND = os.O_APPEND
+	O_EXCL   = os.O_EXCL
+	O_SYNC   = os.O_SYNC
 )
 
 // Op is one recorded primitive.
